@@ -183,7 +183,13 @@ fn gen_dyn_line(rng: &mut Rng) -> String {
             s.push_str("unreg ");
             s.push_str(*rng.pick(&DYN_NAMES));
         }
-        2 => s.push_str(&format!("stput {} {}", rng.pick(&["k", "j", "${x}"]), gen_arg(rng))),
+        2 => {
+            if rng.chance(1, 2) {
+                s.push_str(&format!("stput {} {}", rng.pick(&["k", "j", "${x}"]), gen_arg(rng)));
+            } else {
+                s.push_str(&format!("vset {} {}", rng.pick(&VARS), gen_arg(rng)));
+            }
+        }
         3 => s.push_str(&format!("stget {}", rng.pick(&["k", "j", "${x}", "nokey"]))),
         _ => {
             s.push_str(*rng.pick(&["c0", "c1", "c2", "c3", "k0", "k1", "lib::C", "on_error"]));
@@ -204,6 +210,15 @@ fn gen_dyn(rng: &mut Rng) -> Case {
     for n in ["reg", "unreg", "stput", "stget"] {
         specs.push(spec(n, &[]));
     }
+    // sometimes the error handler is a command that WRITES VARIABLES: `vset` registered with the
+    // alias `on_error` sets the variable named like the error message to the reported line; error
+    // messages are then variable names that failing lines also use as output variables
+    let vset_handler = rng.chance(1, 4);
+    if vset_handler {
+        specs.push(spec("vset", &["on_error".to_string()]));
+    } else {
+        specs.push(spec("vset", &[]));
+    }
     let pool = ["c0", "c1", "c2", "c3", "k0", "k1", "on_error", "lib::C"];
     let ncmd = 2 + rng.below(4);
     for _ in 0..ncmd {
@@ -219,7 +234,15 @@ fn gen_dyn(rng: &mut Rng) -> Case {
         (0..n).map(|_| if rng.chance(1, 8) { gen_line(rng) } else { gen_dyn_line(rng) }).collect::<Vec<_>>().join("\n")
     }).collect();
     let qn = rng.below(20);
-    let queue: Vec<String> = (0..qn).map(|k| gen_result(rng, maxn, k)).collect();
+    let mut queue: Vec<String> = (0..qn).map(|k| gen_result(rng, maxn, k)).collect();
+    if vset_handler {
+        // errors whose message is the name of a variable the scripts use
+        for q in queue.iter_mut() {
+            if q.starts_with("E/") && rng.chance(2, 3) {
+                *q = format!("E/{}", enc_str(rng.pick_s(&VARS)));
+            }
+        }
+    }
     let mut vars: Vec<String> = vec![];
     for k in VARS.iter() {
         if rng.chance(1, 2) {
@@ -256,7 +279,7 @@ fn shrink_dyn(req: &str) -> Vec<String> {
     let specs: Vec<&str> = t[1].split(';').collect();
     let q: Vec<&str> = if t[2] == "-" { vec![] } else { t[2].split(',').collect() };
     let texts: Vec<String> = t[5].split(';').map(|x| x.to_string()).collect();
-    for i in 4..specs.len() {
+    for i in 5..specs.len() {
         let mut s2 = specs.clone();
         s2.remove(i);
         out.push(join(&s2, &q, &texts));
